@@ -235,8 +235,6 @@ class Interpreter(BaseInterpreter[TContext, TEvent]):
 
         logger.info("🏁 Starting interpreter '%s'...", self.id)
         self.status = "running"
-        # 🌀 Launch the main event loop as a background task.
-        self._event_loop_task = asyncio.create_task(self._run_event_loop())
 
         try:
             # 🔔 Notify plugins that the interpreter is starting.
@@ -258,6 +256,21 @@ class Interpreter(BaseInterpreter[TContext, TEvent]):
             # unrelated event happened to nudge it. `start()` must return a
             # settled configuration in BOTH engines.
             await self._settle_transient_transitions()
+
+            # 🌀 Launch the main event loop as a background task - only NOW.
+            #
+            # 🏛️ Architecture decision: the loop used to be created before the
+            # initial entry. Any entry action that really suspends (an `async`
+            # action awaiting I/O) then handed control to the loop, which
+            # processed raised / pre-sent events in the MIDDLE of the initial
+            # descent - interleaved macrosteps and states entered under a
+            # parent that had already been left. Events sent meanwhile are
+            # simply queued and handled once the configuration has settled,
+            # which is what `SyncInterpreter.start()` does too.
+            if self.status == "running":
+                self._event_loop_task = asyncio.create_task(
+                    self._run_event_loop()
+                )
 
             logger.info(
                 "✅ Interpreter '%s' started successfully. Current states: %s",
